@@ -32,8 +32,14 @@ type CState struct {
 // sliceOp: a user-defined Operator whose Go type is NOT comparable (== on two of them panics)
 type sliceOp []string
 
-func (o sliceOp) String() string  { return strings.Join(o, "") }
-func (sliceOp) Context() string   { return "user" }
+func (o sliceOp) String() string { return strings.Join(o, "") }
+func (sliceOp) Context() string  { return "user" }
+
+// ctxOp: a user operator with a chosen text and context (the same TEXT as another operator, a context of its own)
+type ctxOp struct{ text, ctx string }
+
+func (o ctxOp) String() string  { return o.text }
+func (o ctxOp) Context() string { return o.ctx }
 
 type emptyCtxOp struct{}
 
@@ -66,6 +72,10 @@ func ConcOp(o string) stackage.Operator {
 		return stackage.ComparisonOperator(9)
 	case "user":
 		return userOp("~=")
+	case "userB":
+		return ctxOp{"~=", "other"}
+	case "eqB":
+		return ctxOp{"=", "other"}
 	case "uslice":
 		return sliceOp{"~="}
 	case "like":
@@ -438,7 +448,7 @@ func cmdCondTraceGen(args []string) {
 	rng := rand.New(rand.NewSource(*seed))
 	kws := []map[string]any{{"form": "str", "v": "k"}, {"form": "str", "v": "kw2"}, {"form": "str", "v": ""},
 		{"form": "stringer", "v": "sv"}, {"form": "nil", "v": ""}, {"form": "int", "v": ""}}
-	ops := []string{"Eq", "Ne", "Lt", "Gt", "Le", "Ge", "op0", "op9", "user", "emptytext", "emptyctx", "nil"}
+	ops := []string{"Eq", "Ne", "Lt", "Gt", "Le", "Ge", "op0", "op9", "user", "userB", "eqB", "emptytext", "emptyctx", "nil"}
 	exs := []string{"nil", "s:v", "s:w x", "s:", "i:5", "b:t", "str", "S", "A", "P", "C"}
 	flags := []string{"paren", "nspad", "ronly", "nnest"}
 	pairs := [][]any{{}, {[]any{"\""}}, {[]any{"<", ">"}}, {[]any{"<", ">"}, []any{"\""}}, {[]any{"\"", ">"}}, {[]any{"'"}}, {[]any{"(", ")"}}}
